@@ -707,8 +707,10 @@ def _run(mod, ctx):
         "wall_s": round(time.time() - ctx.t0, 2),
         "violations": len([1 for l in lines if l.startswith("VIOLATION")]),
     }
-    os.makedirs(os.path.join(VERIF, "evidence"), exist_ok=True)
-    with open(os.path.join(VERIF, "evidence", f"{prop}.json"), "w") as f:
+    # runs against a scratch tree (VERIF_REPO) must not overwrite the registered evidence
+    evdir = os.path.join(VERIF, "evidence") if os.path.realpath(REPO) == "/repo" else os.path.join(VERIF, "build", "alt-evidence")
+    os.makedirs(evdir, exist_ok=True)
+    with open(os.path.join(evdir, f"{prop}.json"), "w") as f:
         json.dump(ev, f, indent=1, sort_keys=True)
     for l in lines:
         print(l)
